@@ -334,6 +334,39 @@ func TestC19(t *testing.T) {
 		}
 		return
 	}
+	t.Run("each-kind-once", func(t *testing.T) {
+		// one case of every kind that the generated phase only samples, so that no run misses one
+		nsh := hx.NShards()
+		for i, kind := range []string{"reseed-nonces", "clock-nonce", "clock-exponent", "reseed-srp", "reseed-exchange"} {
+			if i%nsh != run.Shard%nsh {
+				continue
+			}
+			c := &Case{Kind: kind, Seed: int64(run.Seed)*31 + int64(i), G: []int32{3, 4, 7}[i%3], Password: "each kind once"}
+			if kind == "reseed-exchange" {
+				sc, err := scen.BuildHandshake(&detSource{seed: run.Seed*53 + uint64(i)}, keys, scen.Corner{}, false)
+				if err != nil {
+					t.Fatalf("INFRA: %v", err)
+				}
+				sc.HS.P, sc.HS.Q = 1000003, 1000033
+				sc.Probe = false
+				seed := c.Seed
+				sc.ReseedGlobal = &seed
+				c.Scenario = sc
+			}
+			run.Case(true, evid.Hash("each-kind", kind, c.Seed), "kind:"+kind)
+			if err := oracle(c); err != nil {
+				if strings.HasPrefix(err.Error(), "INFRA:") {
+					t.Logf("inconclusive: %v", err)
+					continue
+				}
+				p := run.ViolationNamed("kind-"+kind, c, err.Error())
+				t.Errorf("violation (replay %s): %v", p, err)
+			}
+		}
+	})
+	if t.Failed() {
+		return
+	}
 	t.Run("many-draws", func(t *testing.T) {
 		c := &Case{Kind: "many-draws", Draws: run.Pick(700, 20000), Seed: int64(run.Seed)}
 		run.Case(true, evid.Hash(c.Kind, c.Draws, run.Shard), "kind:"+c.Kind)
@@ -506,4 +539,15 @@ func (c *countingReader) Read(p []byte) (int, error) {
 	k, err := c.r.Read(p)
 	atomic.AddInt64(&c.n, int64(k))
 	return k, err
+}
+
+type detSource struct{ seed uint64 }
+
+func (d *detSource) Bytes(label string, n int) []byte {
+	d.seed = d.seed*6364136223846793005 + 1442695040888963407
+	return hx.Det(d.seed^evid.Hash(label), n)
+}
+func (d *detSource) Int(label string, n int) int {
+	d.seed = d.seed*6364136223846793005 + 1442695040888963407
+	return int(hx.DetU64(d.seed^evid.Hash(label)) % uint64(n))
 }
